@@ -13,7 +13,7 @@ from vf.ref import lexer as ref
 ID = "C09"
 SIGMA = ["a", "1", "0", ".", "e", "-", '"', "\\", "#", "{", "(", ":", "\n", "\r", ",", " ", "\ufeff", "$", "..."]
 BOUNDS = {
-    "quick": "lexer vs lexical grammar on all strings <=4 over 19 symbols; documents with <=1 grammar deviation (4 parser-flag settings) x 9 ignored-sequences at every single boundary + uniform; single-char edits; max_tokens 0..n+1",
+    "quick": "lexer vs lexical grammar on all strings <=4 over 19 symbols; documents with <=1 grammar deviation (4 parser-flag settings) x 9 ignored-sequences at every single boundary + uniform; single-char edits; max_tokens 0..n+1; 9 hand documents in which every literal kind is followed by every token kind",
     "thorough": "all strings <=5 over 19 symbols; documents with <=2 deviations; ignored-sequences at every single boundary, uniform and at every pair of boundaries for short documents; edits; max_tokens",
 }
 RULE = (
